@@ -2316,6 +2316,9 @@ def chain_child(scope):
     # of tuples
     nxt_in_chain = scope[LAST_CHILD_SCOPE]
     nxt_in_chain.maps[0][NO_PYFRAME] = True
+    # the chained scope only carries bindings forward: a mode set by the
+    # previous step (Fill, Match, Group, Auto) must not apply to the next one
+    nxt_in_chain.maps[0][MODE] = scope[MODE]
     # previous failed branches are forgiven as the
     # scope is re-wired into a new stack
     del nxt_in_chain.maps[0][CHILD_ERRORS][:]
